@@ -309,9 +309,9 @@ theorem cons_tok_dispatch_eq_fulltextFilter (dp : Bool) (field : List Nat) (t : 
 
 /-- **the type switch of the legacy `parseLiteral`** (parser/token_parser.go): for a non-range literal of a type the
 level-A `dispatch` rejects, level B `legacyLiteral` gives the same error / panic -/
-theorem cons_tok_dispatch_eq_legacyLiteral (dp csConf : Bool) (field : List Nat) (t : FT) (r : Rn) (rest : List Rn)
+theorem cons_tok_dispatch_eq_legacyLiteral (dp rl csConf : Bool) (field : List Nat) (t : FT) (r : Rn) (rest : List Rn)
     (hr : ¬ (r.cp = 91 ∨ r.cp = 123)) (ht : (fTypeOfFT t).searchable = false) :
-    PRes.void (legacyLiteral dp csConf field t (r :: rest)) = dispatch dp (fTypeOfFT t) := by
+    PRes.void (legacyLiteral dp rl csConf field t (r :: rest)) = dispatch dp (fTypeOfFT t) := by
   cases t <;> simp [fTypeOfFT, FType.searchable] at ht <;> cases dp <;> simp [legacyLiteral, hr, dispatch, fTypeOfFT, PRes.void]
 
 /-- `FType.searchable` is "the switch accepts" in both levels -/
